@@ -249,6 +249,17 @@ pub fn run(ctx: &Ctx) -> i32 {
             }
         }
     });
+    // 3b. padding at every position: for every capacity, 0..3 ASCII characters then pads to the end
+    ctx.seq(|w| {
+        w.label(|| "pads at every position of every capacity".into());
+        for cap in &caps {
+            for d in 0..=3usize.min(*cap) {
+                let s = vec![b'A'; d];
+                let segs: Vec<Seg> = if d == 0 { vec![] } else { vec![Seg { mode: Mode::Ascii, len: d, flag: true }] };
+                replay_script(&[], &s, &segs, &[*cap], 1, w);
+            }
+        }
+    });
     for header in [236u8, 237, 232] {
         let fam = Family::Over { alpha: SIGMA8.to_vec(), min: 0, max: ctx.tier.pick(3, 4) };
         let n = fam.size();
@@ -277,7 +288,7 @@ pub fn run(ctx: &Ctx) -> i32 {
         "rule": "states = (string, script prefix) nodes of the script tree of the reference encoder R6, transitions = script extensions (mode x run length x termination form); every complete script that R6 can legally realise \
 (strict tier: forms spelled out by ISO/IEC 16022) is materialised for up to 5 admissible real symbol capacities, decoded by R5 (model self-consistency, engine error otherwise) and replayed against data::decode_data and decode_str. \
 Programs: all strings over an 8-letter class alphabet up to the tier's length with all scripts (longer strings with a bounded number of latches); every byte value in runs of every mode that can carry it; all strings over a 7-letter alphabet with high bytes (0x80, 0x9F, 0xE1, 0xFF, RS, A, a) up to length 4 (5); a filler run of 1..kmax characters in each mode (with and without unlatch) followed by every tail of length <= 2 (3) with all scripts; \
-Base256 fields of length 1..1555 (both sides of every multiple of 250) with explicit and with zero length; macro 05/06 and FNC1 headers. non-trivial = materialised script with a non-ASCII run.",
+Base256 fields of length 1..1555 (both sides of every multiple of 250) with explicit and with zero length; pads from positions 1..4 to the end of every capacity; macro 05/06 and FNC1 headers. non-trivial = materialised script with a non-ASCII run.",
         "exhaustive": true,
         "scripts_materialised": ctx.counter("scripts_materialised"),
         "distinct_run_end_forms": ctx.distinct("run_end_forms"),
